@@ -8,7 +8,13 @@ From PV Require Import lib.Sx lib.Str lib.Result model.GenScc model.SccLen model
 Import ListNotations. Open Scope Z_scope.
 
 Definition basic_item (it : item) : bool := match it with Ch _ => true | _ => false end.
-Definition basic_row (r : row) : bool := row_ok r && negb (rw_ital r) && forallb basic_item (rw_items r).
+(* plain white preamble (style attribute 0), basic characters only *)
+Definition basic_row (r : row) : bool := row_ok r && (rw_style r =? 0) && forallb basic_item (rw_items r).
+Lemma basic_row_style : forall r, basic_row r = true -> rw_style r = 0.
+Proof.
+  intros r H. unfold basic_row in H. apply andb_true_iff in H. destruct H as [H _].
+  apply andb_true_iff in H. destruct H as [_ H]. apply Z.eqb_eq in H. exact H.
+Qed.
 Definition row_text (r : row) : str := map (fun it => match it with Ch c => c | _ => 0 end) (rw_items r).
 Definition row_pos (r : row) : pos := (rw_row r, rw_indent r + rw_tab r).
 Definition start_state (off : Q) (tc : str) : rstate := set_clock (rstate0 off) tc 0.
@@ -341,7 +347,9 @@ Lemma basic_row_facts : forall r, basic_row r = true ->
   last (row_text r) 0 <> 32 /\ rw_indent r + rw_tab r + Z.of_nat (length (row_text r)) <= 32.
 Proof.
   intros r H. unfold basic_row in H. apply andb_true_iff in H. destruct H as [H Hb].
-  apply andb_true_iff in H. destruct H as [Hok Hi]. apply negb_true_iff in Hi.
+  apply andb_true_iff in H. destruct H as [Hok Hi]. apply Z.eqb_eq in Hi.
+  assert (Hi' : rw_ital r = false) by (unfold rw_ital; rewrite Hi; apply andb_false_r).
+  clear Hi; rename Hi' into Hi.
   destruct (row_ok_parts r Hok) as (Hr & Hm & Ht & Hio & Hv & Hl & Hn).
   assert (Hc : cells_of r = map (fun c => Cell c false) (row_text r)).
   { unfold cells_of. rewrite Hi. rewrite (row_cells_basic _ [] false Hb). reflexivity. }
@@ -359,7 +367,7 @@ Proof.
 Qed.
 
 (* ---- 5. the preamble address code of a row --------------------------------------------------------------- *)
-Lemma pac_attr_facts : forall r, rw_ital r = false -> In (rw_indent r) indents_608 ->
+Lemma pac_attr_facts : forall r, rw_style r = 0 -> In (rw_indent r) indents_608 ->
   0 <= pac_attr r < 32 /\ pac_col (pac_attr r) = rw_indent r /\ pac_italics (pac_attr r) = false.
 Proof.
   intros r Hi Hin. unfold pac_attr. rewrite Hi. unfold indents_608 in Hin. cbn [In] in Hin.
@@ -384,7 +392,7 @@ Lemma pac_row_facts : forall r, basic_row r = true ->
   pac_pos p = Some (rw_row r, rw_indent r) /\ is_pac p = true /\ tab_of p = None /\ interpreted p.
 Proof.
   intros r H p. destruct (basic_row_facts r H) as (Hi & Hr & Hin & _).
-  destruct (pac_attr_facts r Hi Hin) as (Ha & Hc & Hit).
+  destruct (pac_attr_facts r (basic_row_style r H) Hin) as (Ha & Hc & Hit).
   assert (Hp : pac_pos p = Some (rw_row r, rw_indent r)) by (unfold p; rewrite (pac_grid _ _ Hr Ha), Hc; reflexivity).
   assert (Hpac : is_pac p = true) by (unfold is_pac; rewrite Hp; reflexivity).
   destruct (pac_facts p Hpac) as [Ht Hq].
